@@ -2184,6 +2184,7 @@ package analysis
 //@   panics when callmeOnError == nil
 //@   ensures allResolve(s, parameters) ==> cbCalled == old(cbCalled)
 //@   ensures callmeOnError != nil && !allResolve(s, parameters) ==> cbCalled
+//@   ensures allResolve(s, parameters) ==> result
 //@   ensures forall k in dom(res) :: (old(k in dom(res)) && res[k] == old(res[k])) || (exists i in 0..len(parameters) :: entryFor(s, parameters[i], k, res[k]))
 //@   ensures forall k string :: old(k in dom(res)) ==> k in dom(res)
 //@   ensures allResolve(s, parameters) ==> forall i in 0..len(parameters) :: mapKeyFromParam(effParam(s, parameters[i])) in dom(res) && (exists j in i..len(parameters) :: res[mapKeyFromParam(effParam(s, parameters[i]))] == effParam(s, parameters[j]) && mapKeyFromParam(effParam(s, parameters[j])) == mapKeyFromParam(effParam(s, parameters[i])))
@@ -2201,11 +2202,14 @@ package analysis
 //@   aspect cbproto
 //@   requires s != nil && res != nil && callmeOnError != nil && !cbStop
 //@   modifies map res, ghost cbCalled, ghost cbStop
+//@   ensures result == !cbStop
+//@   ensures forall k string :: old(k in dom(res)) ==> k in dom(res)
 //@   ensures !cbStop ==> forall i in 0..len(parameters) :: resolvesOK(s, parameters[i]) ==> mapKeyFromParam(effParam(s, parameters[i])) in dom(res)
 //@   ensures cbStop ==> exists n in 0..len(parameters) :: !resolvesOK(s, parameters[n]) && (forall k in dom(res) :: (old(k in dom(res)) && res[k] == old(res[k])) || (exists i in 0..n :: entryFor(s, parameters[i], k, res[k])))
 //@   ensures forall k in dom(res) :: (old(k in dom(res)) && res[k] == old(res[k])) || (exists i in 0..len(parameters) :: resolvesOK(s, parameters[i]) && entryFor(s, parameters[i], k, res[k]))
 //@   loop 1: modifies map res, ghost cbCalled, ghost cbStop
 //@   loop 1: invariant callmeOnError == old(callmeOnError) && !cbStop
+//@   loop 1: invariant forall k string :: old(k in dom(res)) ==> k in dom(res)
 //@   loop 1: invariant forall j in 0..idx :: resolvesOK(s, parameters[j]) ==> mapKeyFromParam(effParam(s, parameters[j])) in dom(res)
 //@   loop 1: invariant forall k in dom(res) :: (old(k in dom(res)) && res[k] == old(res[k])) || (exists i in 0..idx :: resolvesOK(s, parameters[i]) && entryFor(s, parameters[i], k, res[k]))
 
@@ -2224,6 +2228,16 @@ package analysis
 //@   ensures !noOp(s, method, path) ==> forall k in dom(result) :: fromLists(s, docPaths(s)[path].Parameters, opAtM(docPaths(s)[path], strings.ToUpper(method)).Parameters, k, result[k])
 //@   ensures !noOp(s, method, path) && allResolve(s, docPaths(s)[path].Parameters) && allResolve(s, opAtM(docPaths(s)[path], strings.ToUpper(method)).Parameters) ==> (forall i in 0..len(opAtM(docPaths(s)[path], strings.ToUpper(method)).Parameters) :: mapKeyFromParam(effParam(s, opAtM(docPaths(s)[path], strings.ToUpper(method)).Parameters[i])) in dom(result) && (exists j in i..len(opAtM(docPaths(s)[path], strings.ToUpper(method)).Parameters) :: result[mapKeyFromParam(effParam(s, opAtM(docPaths(s)[path], strings.ToUpper(method)).Parameters[i]))] == effParam(s, opAtM(docPaths(s)[path], strings.ToUpper(method)).Parameters[j])))
 //@   ensures !noOp(s, method, path) && allResolve(s, docPaths(s)[path].Parameters) && allResolve(s, opAtM(docPaths(s)[path], strings.ToUpper(method)).Parameters) ==> (forall i in 0..len(docPaths(s)[path].Parameters) :: mapKeyFromParam(effParam(s, docPaths(s)[path].Parameters[i])) in dom(result))
+
+// "stop" at the level of the exported lookups: once the callback answered false nothing more is gathered, in
+// particular the operation-level list is not processed after a stop in the path-level list
+//@ fun beforeIn(s *Spec, ps []spec.Parameter, n int, k string, v spec.Parameter) bool = exists i in 0..n :: entryFor(s, ps[i], k, v)
+//@ func (s *Spec) SafeParamsFor(method, path, callmeOnError)
+//@   aspect cbproto
+//@   requires s != nil && s.spec != nil && wfOps(s) && callmeOnError != nil && !cbStop
+//@   modifies ghost cbCalled, ghost cbStop
+//@   ensures !noOp(s, method, path) && !cbStop ==> (forall i in 0..len(docPaths(s)[path].Parameters) :: resolvesOK(s, docPaths(s)[path].Parameters[i]) ==> mapKeyFromParam(effParam(s, docPaths(s)[path].Parameters[i])) in dom(result)) && (forall i in 0..len(opAtM(docPaths(s)[path], strings.ToUpper(method)).Parameters) :: resolvesOK(s, opAtM(docPaths(s)[path], strings.ToUpper(method)).Parameters[i]) ==> mapKeyFromParam(effParam(s, opAtM(docPaths(s)[path], strings.ToUpper(method)).Parameters[i])) in dom(result))
+//@   ensures !noOp(s, method, path) && cbStop ==> (exists n in 0..len(docPaths(s)[path].Parameters) :: !resolvesOK(s, docPaths(s)[path].Parameters[n]) && (forall k in dom(result) :: beforeIn(s, docPaths(s)[path].Parameters, n, k, result[k]))) || (exists n in 0..len(opAtM(docPaths(s)[path], strings.ToUpper(method)).Parameters) :: !resolvesOK(s, opAtM(docPaths(s)[path], strings.ToUpper(method)).Parameters[n]) && (forall k in dom(result) :: beforeIn(s, docPaths(s)[path].Parameters, len(docPaths(s)[path].Parameters), k, result[k]) || beforeIn(s, opAtM(docPaths(s)[path], strings.ToUpper(method)).Parameters, n, k, result[k])))
 
 //@ func (s *Spec) ParamsFor(method, path)
 //@   requires s != nil && s.spec != nil && wfOps(s)
